@@ -26,7 +26,10 @@ def mat(out):
 
 def wrap(cirq, rng, op):
     """random wrapper composition that must preserve the linear map (returns op', description)"""
-    k = rng.randrange(7)
+    k = rng.randrange(8)
+    if k == 7:
+        # phases on no qubits that cancel inside a sub-circuit
+        return cirq.CircuitOperation(cirq.FrozenCircuit(cirq.global_phase_operation(1j), op, cirq.global_phase_operation(-1j))), 'circuit-op-phases'
     if k == 0:
         return op.with_tags('t', 7), 'tags'
     if k == 1:
@@ -156,6 +159,12 @@ def run(ctx: common.Run):
             op2, wname = op, 'none'  # a CircuitOperation lists its qubits in sorted order: a different (equally valid) matrix layout
         u = cirq.unitary(op)
         ctx.count('wrapper', wname)
+        try:
+            cirq.unitary(op2)
+        except (ValueError, TypeError) as e:
+            ctx.report_witness(f'wrapper:{wname}:raises', f'cirq.unitary of the wrapped operation raises {type(e).__name__}: {str(e)[:80]}', {'lines': [{'op': repr(op), 'wrapped': repr(op2)}],
+                               'impl_out': [str(e)[:200]], 'spec_out': [repr(np.round(u, 6).tolist())], 'theorem_or_correspondence': 'wrapper no-op'})
+            continue
         # ---- has_* predicates
         for name, has, val in (
             ('has_unitary', cirq.has_unitary(op2), cirq.unitary(op2, None) is not None),
@@ -169,7 +178,12 @@ def run(ctx: common.Run):
         if cirq.is_measurement(op2):
             ctx.report_witness('has:is_measurement', 'unitary op reports is_measurement', {'lines': [{'op': repr(op2)}], 'impl_out': [True], 'spec_out': [False], 'theorem_or_correspondence': 'has_*'})
         # ---- wrappers preserve the matrix
-        u2 = cirq.unitary(op2)
+        try:
+            u2 = cirq.unitary(op2)
+        except (ValueError, TypeError) as e:
+            ctx.report_witness(f'wrapper:{wname}:raises', f'cirq.unitary of the wrapped operation raises {type(e).__name__}: {str(e)[:80]}', {'lines': [{'op': repr(op), 'wrapped': repr(op2)}],
+                               'impl_out': [str(e)[:200]], 'spec_out': [repr(np.round(u, 6).tolist())], 'theorem_or_correspondence': 'wrapper no-op'})
+            continue
         ctx.count('check', 'wrapper-matrix')
         if not np.allclose(u, u2, atol=1e-8):
             ctx.report_witness(f'wrapper:{wname}', f'wrapper {wname} changed the matrix', {'lines': [{'op': repr(op), 'wrapped': repr(op2)}],
@@ -224,7 +238,7 @@ def run(ctx: common.Run):
             for j in range(total):
                 qubits_all.append(cirq.LineQid(100 + j, shape[j]) if shape[j] != 2 else cirq.LineQubit(100 + j))
             mapping = {q: qubits_all[p] for q, p in zip(op.qubits, positions)}
-            op_m = op2.transform_qubits(mapping) if wname != 'circuit-op' else op.transform_qubits(mapping)
+            op_m = op2.transform_qubits(mapping) if not wname.startswith('circuit-op') else op.transform_qubits(mapping)
             st = cirq.StateVectorSimulationState(qubits=qubits_all, initial_state=(vec / np.linalg.norm(vec)).astype(np.complex128).reshape(shape), dtype=np.complex128)
             cirq.act_on(op_m, st)
             reqs.append(reqs[-1] if meta[-1][0].startswith('apply_unitary') else None)
